@@ -193,8 +193,11 @@ class NUTS(Sampler):
             raise ValueError('Target must have logd and gradient methods.')
 
     def reinitialize(self):
+        # max_depth is part of the state, but it is a setting of the sampler: keep it
+        max_depth = self.max_depth
         # Call the parent reset method
         super().reinitialize()
+        self.max_depth = max_depth
         # Reset NUTS run diagnostic attributes
         self._reset_run_diagnostic_attributes()
 
